@@ -157,7 +157,7 @@ func worker(args []string) {
 			os.Exit(2)
 		}
 		var rf struct {
-			Key  string          `json:"key"`
+			Key  mon.Str         `json:"key"`
 			Case json.RawMessage `json:"case"`
 		}
 		if err := json.Unmarshal(b, &rf); err != nil {
@@ -169,14 +169,14 @@ func worker(args []string) {
 			fmt.Println("property has no replay function")
 			os.Exit(2)
 		}
-		w.DoOwned(rf.Key, func(r *mon.R) { p.Replay(rf.Case, r) })
+		w.DoOwned(string(rf.Key), func(r *mon.R) { p.Replay(rf.Case, r) })
 		res := w.Result()
 		if res.HarnessError != "" {
 			fmt.Println("CHECK-ERROR", res.HarnessError)
 			os.Exit(2)
 		}
 		if len(res.Violations) > 0 {
-			fmt.Printf("  witness: %s\n    %s\n", rf.Key, res.Violations[0].Msg)
+			fmt.Printf("  witness: %q\n    %s\n", string(rf.Key), res.Violations[0].Msg)
 			fmt.Printf("VIOLATION property=%s replay=%s\n", id, *replay)
 			os.Exit(1)
 		}
